@@ -329,6 +329,171 @@ theorem C17_blockers_two_valid (n : Nat) (pp : Rat) (s : Stream) (hn : n ≤ 21)
     rw [← hl]
     exact getElem?_mid _ _ _
 
+/-! ### the two binomial generators -/
+
+theorem binomialVars_go_ok (powers : Bool) (pp2 : Rat) : ∀ (vs : List Char) (s : Stream),
+    ∀ q ∈ (binomialVars.go powers pp2 vs s).1, PowOk q.2 := by
+  intro vs
+  induction vs with
+  | nil => intro s q h; simp [binomialVars.go] at h
+  | cons v vs ih =>
+    intro s q h
+    cases powers with
+    | true =>
+      simp only [binomialVars.go, if_true, List.mem_cons] at h
+      rcases h with rfl | h
+      · exact maybePower_ok _ _
+      · exact ih _ _ h
+    | false =>
+      simp only [binomialVars.go, Bool.false_eq_true, if_false, List.mem_cons] at h
+      rcases h with rfl | h
+      · intro t ht; cases ht
+      · exact ih _ _ h
+
+theorem binomialVars_ok (powers likeVars : Bool) (numVars : Nat) (pp2 : Rat) (s : Stream) (hn : numVars ≤ 24) :
+    ∃ vars, (binomialVars powers likeVars numVars pp2 s).1 = some vars ∧ ∀ q ∈ vars, PowOk q.2 := by
+  unfold binomialVars
+  cases likeVars with
+  | true =>
+    simp only [if_true]
+    cases powers with
+    | true =>
+      simp only [if_true]
+      refine ⟨_, rfl, ?_⟩
+      intro q hq
+      rw [List.mem_replicate] at hq
+      rw [hq.2]
+      exact maybePower_ok _ _
+    | false =>
+      simp only [Bool.false_eq_true, if_false]
+      refine ⟨_, rfl, ?_⟩
+      intro q hq
+      rw [List.mem_replicate] at hq
+      rw [hq.2]
+      intro t ht; cases ht
+  | false =>
+    simp only [Bool.false_eq_true, if_false]
+    obtain ⟨vs, hvs⟩ := getRandVarsS_some numVars [] s (by omega) (by
+      have : (variablesPool.filter (fun v => !([] : List Char).contains v)).length = 24 := by decide
+      omega)
+    generalize getRandVarsS numVars [] s = G at hvs ⊢
+    obtain ⟨g, s1⟩ := G
+    simp only [] at hvs
+    subst hvs
+    simp only []
+    exact ⟨_, rfl, binomialVars_go_ok powers pp2 vs s1⟩
+
+theorem binomialTerms_spec (simple : Bool) : ∀ (n : Nat) (vars : List (Char × Option (List Char))) (s : Stream),
+    (∀ q ∈ vars, PowOk q.2) →
+    (binomialTerms simple n vars s).1.length = n ∧ ∀ it ∈ (binomialTerms simple n vars s).1, it.ok = true := by
+  intro n
+  induction n with
+  | zero => intro vars s _; simp [binomialTerms]
+  | succ n ih =>
+    intro vars s hv
+    cases vars with
+    | nil =>
+      obtain ⟨h1, h2⟩ := ih [] (randNumber s).2 (by simp)
+      simp only [binomialTerms, List.length_cons, List.mem_cons]
+      refine ⟨by omega, ?_⟩
+      rintro it (rfl | h)
+      · simpa [PItem.ok] using randNumber_ok s
+      · exact h2 it h
+    | cons q vs =>
+      obtain ⟨v, p⟩ := q
+      have hp : PowOk p := hv (v, p) (by simp)
+      have hvs : ∀ q ∈ vs, PowOk q.2 := fun q hq => hv q (by simp [hq])
+      cases simple with
+      | true =>
+        obtain ⟨h1, h2⟩ := ih vs s hvs
+        simp only [binomialTerms, if_true, List.length_cons, List.mem_cons]
+        refine ⟨by omega, ?_⟩
+        rintro it (rfl | h)
+        · exact term_ok _ _ _ (by intro n hn; cases hn) hp
+        · exact h2 it h
+      | false =>
+        obtain ⟨h1, h2⟩ := ih vs (randNumber s).2 hvs
+        simp only [binomialTerms, Bool.false_eq_true, if_false, List.length_cons, List.mem_cons]
+        refine ⟨by omega, ?_⟩
+        rintro it (rfl | h)
+        · exact term_ok _ _ _ (by intro n hn; cases hn; exact randNumber_ok s) hp
+        · exact h2 it h
+
+theorem shuffle2_ok (a b : PItem) (s : Stream) (ha : a.ok = true) (hb : b.ok = true) :
+    (shuffle2 a b s).1.1.ok = true ∧ (shuffle2 a b s).1.2.ok = true := by
+  unfold shuffle2
+  simp only []
+  split <;> simp [ha, hb]
+
+/-- **C17, `gen_binomial_times_binomial`** (every stream; `min_vars ≤ max_vars ≤ 4`, any
+`simple_variables`, any probabilities): a well-formed `(a + b)(c + d)` and complexity 6. -/
+theorem C17_binomial_binomial_valid (minV maxV : Nat) (simple : Bool) (pp lp : Rat) (s : Stream)
+    (h1 : minV ≤ maxV) (h2 : maxV ≤ 4) :
+    ∃ p cx, binomialTimesBinomial minV maxV simple pp lp s = some (p, cx) ∧ p.ok = true ∧ 0 < cx := by
+  unfold binomialTimesBinomial
+  simp only []
+  rw [if_neg (by omega)]
+  have hN := randint_le minV maxV (randBool lp (randBool pp s).2).2 h1
+  generalize randint minV maxV (randBool lp (randBool pp s).2).2 = R at hN ⊢
+  obtain ⟨numVars, s3⟩ := R
+  simp only [] at hN ⊢
+  rw [if_neg (by omega)]
+  obtain ⟨vars, hvars, hpow⟩ := binomialVars_ok (randBool pp s).1 (randBool lp (randBool pp s).2).1 numVars (pp * 2) s3 (by omega)
+  generalize binomialVars (randBool pp s).1 (randBool lp (randBool pp s).2).1 numVars (pp * 2) s3 = BV at hvars ⊢
+  obtain ⟨bv, s4⟩ := BV
+  simp only [] at hvars
+  subst hvars
+  simp only []
+  obtain ⟨hlen, hok⟩ := binomialTerms_spec simple 4 vars s4 hpow
+  generalize binomialTerms simple 4 vars s4 = BT at hlen hok ⊢
+  obtain ⟨ts, s5⟩ := BT
+  simp only [] at hlen hok
+  obtain ⟨t0, t1, t2, t3, rfl⟩ : ∃ a b c d, ts = [a, b, c, d] := by
+    match ts, hlen with
+    | [a, b, c, d], _ => exact ⟨a, b, c, d, rfl⟩
+  simp only []
+  have o0 := hok t0 (by simp)
+  have o1 := hok t1 (by simp)
+  have o2 := hok t2 (by simp)
+  have o3 := hok t3 (by simp)
+  obtain ⟨f0, f1⟩ := shuffle2_ok t0 t2 s5 o0 o2
+  obtain ⟨g0, g1⟩ := shuffle2_ok t1 t3 (shuffle2 t0 t2 s5).2 o1 o3
+  refine ⟨_, _, rfl, ?_, by omega⟩
+  simp [BinomialProblem.ok, f0, f1, g0, g1]
+
+/-- **C17, `gen_binomial_times_monomial`** (every stream; `min_vars ≤ max_vars ≤ 3`). -/
+theorem C17_binomial_monomial_valid (minV maxV : Nat) (simple : Bool) (pp lp : Rat) (s : Stream)
+    (h1 : minV ≤ maxV) (h2 : maxV ≤ 3) :
+    ∃ p cx, binomialTimesMonomial minV maxV simple pp lp s = some (p, cx) ∧ p.ok = true ∧ 0 < cx := by
+  unfold binomialTimesMonomial
+  simp only []
+  rw [if_neg (by omega)]
+  have hN := randint_le minV maxV (randBool lp (randBool pp s).2).2 h1
+  generalize randint minV maxV (randBool lp (randBool pp s).2).2 = R at hN ⊢
+  obtain ⟨numVars, s3⟩ := R
+  simp only [] at hN ⊢
+  rw [if_neg (by omega)]
+  obtain ⟨vars, hvars, hpow⟩ := binomialVars_ok (randBool pp s).1 (randBool lp (randBool pp s).2).1 numVars (pp * 2) s3 (by omega)
+  generalize binomialVars (randBool pp s).1 (randBool lp (randBool pp s).2).1 numVars (pp * 2) s3 = BV at hvars ⊢
+  obtain ⟨bv, s4⟩ := BV
+  simp only [] at hvars
+  subst hvars
+  simp only []
+  obtain ⟨hlen, hok⟩ := binomialTerms_spec simple 3 vars s4 hpow
+  generalize binomialTerms simple 3 vars s4 = BT at hlen hok ⊢
+  obtain ⟨ts, s5⟩ := BT
+  simp only [] at hlen hok
+  obtain ⟨t0, t1, t2, rfl⟩ : ∃ a b c, ts = [a, b, c] := by
+    match ts, hlen with
+    | [a, b, c], _ => exact ⟨a, b, c, rfl⟩
+  simp only []
+  have o0 := hok t0 (by simp)
+  have o1 := hok t1 (by simp)
+  have o2 := hok t2 (by simp)
+  obtain ⟨f0, f1⟩ := shuffle2_ok t0 t2 s5 o0 o2
+  refine ⟨_, _, rfl, ?_, by omega⟩
+  simp [BinomialProblem.ok, f0, f1, o1]
+
 /-- what C17 promises of a generated problem: the text is accepted by the parser, the complexity is
 positive, and the parsed expression has like terms -/
 def ValidProblem (r : Option (FlatProblem × Nat)) : Prop :=
@@ -346,11 +511,23 @@ theorem C17_generators_valid (s : Stream) :
     (∀ minT maxT blockers easy powers, minT ≤ maxT → maxT ≤ 25 → 1 ≤ blockers → blockers ≤ 23 →
       ValidProblem (commuteHaystack minT maxT blockers easy powers s)) ∧
     (∀ n pp, n ≤ 23 → ValidProblem (moveAroundBlockersOne n pp s)) ∧
-    (∀ n pp, n ≤ 21 → ValidProblem (moveAroundBlockersTwo n pp s)) :=
+    (∀ n pp, n ≤ 21 → ValidProblem (moveAroundBlockersTwo n pp s)) ∧
+    (∀ minV maxV simple pp lp, minV ≤ maxV → maxV ≤ 4 → ∃ p cx e,
+      binomialTimesBinomial minV maxV simple pp lp s = some (p, cx) ∧ 0 < cx ∧ parseToks (p.toks ++ [eofTok]) = .ok e) ∧
+    (∀ minV maxV simple pp lp, minV ≤ maxV → maxV ≤ 3 → ∃ p cx e,
+      binomialTimesMonomial minV maxV simple pp lp s = some (p, cx) ∧ 0 < cx ∧ parseToks (p.toks ++ [eofTok]) = .ok e) :=
   ⟨fun a b e p h1 h2 => valid_of _ (C17_combine_valid a b e p s h1 h2),
    fun a b c e p h1 h2 h3 h4 => valid_of _ (C17_haystack_valid a b c e p s h1 h2 h3 h4),
    fun n pp h => valid_of _ (C17_blockers_one_valid n pp s h),
-   fun n pp h => valid_of _ (C17_blockers_two_valid n pp s h)⟩
+   fun n pp h => valid_of _ (C17_blockers_two_valid n pp s h),
+   fun a b sv pp lp h1 h2 => by
+     obtain ⟨p, cx, hr, hok, hcx⟩ := C17_binomial_binomial_valid a b sv pp lp s h1 h2
+     obtain ⟨e, he⟩ := C17_binomial_parses p hok
+     exact ⟨p, cx, e, hr, hcx, he⟩,
+   fun a b sv pp lp h1 h2 => by
+     obtain ⟨p, cx, hr, hok, hcx⟩ := C17_binomial_monomial_valid a b sv pp lp s h1 h2
+     obtain ⟨e, he⟩ := C17_binomial_parses p hok
+     exact ⟨p, cx, e, hr, hcx, he⟩⟩
 
 /-! non-vacuity: one concrete stream -/
 example : (combineTermsInPlace 4 6 true false [1, 3, 50, 90, 5, 10, 7, 2, 1, 0, 4, 3, 2, 1, 0, 99, 20, 3, 50, 2, 90]).isSome = true := by
